@@ -181,7 +181,12 @@ def run_case(case, workdir):
         zfit = cm.fit_from(x0, z0)
         probe_state["last_fit"] = (cm.m.mean, cm.m.std)
         ztol = (5e-3 if bits == 32 else 1e-6)
-        if zfit.shape != z0.shape or not np.allclose(zfit, z0, rtol=ztol, atol=ztol * (1 + np.abs(z0).max())):
+        dz = np.abs(zfit - z0) if zfit.shape == z0.shape else None
+        if dz is not None and cm.m.pm.any():
+            # a coordinate within rounding of the period edge may wrap to either end: compare on the circle
+            per_w = (np.asarray(t.upper) - np.asarray(t.lower))[cm.m.pm] / (np.abs(cm.m.std[cm.m.pm]) if cm.m.affine else 1.0)
+            dz[:, cm.m.pm] = np.minimum(dz[:, cm.m.pm], np.abs(per_w - dz[:, cm.m.pm]))
+        if dz is None or not np.all(dz <= ztol * (1 + np.abs(z0)) + ztol * (1 + np.abs(z0).max())):
             # the start positions are not the model's forward image of the start coordinates
             V.append(O.violation("c05.start_positions", f"kernel {ki}: start positions are not the preconditioning image of the start coordinates "
                                  f"(max dev {float(np.max(np.abs(zfit - z0))) if zfit.shape == z0.shape else 'shape'})", where))
